@@ -192,6 +192,43 @@ void h_step2(void)
 }
 #endif
 
+
+/* ------------------------------------------------------------------ P: the loop-free public wrappers */
+#if defined(VF_G_wrap) && !defined(VF_NATIVE)
+struct cstl_slist * vf_wl; struct cstl_slist_node * vf_wp, * vf_wn; size_t vf_wcalls_i, vf_wcalls_e;
+static void __cstl_slist_insert_after(struct cstl_slist * const sl, struct cstl_slist_node * const in, struct cstl_slist_node * const nn)
+REQUIRES(sl == vf_wl && in == vf_wp && nn == vf_wn)
+ASSIGNS(vf_wcalls_i)
+ENSURES(vf_wcalls_i == OLD(vf_wcalls_i) + 1)
+;
+static struct cstl_slist_node * __cstl_slist_erase_after(struct cstl_slist * const sl, struct cstl_slist_node * const e)
+REQUIRES(sl == vf_wl && e == vf_wp)
+ASSIGNS(vf_wcalls_e)
+ENSURES(vf_wcalls_e == OLD(vf_wcalls_e) + 1 && RESULT == vf_wn)
+;
+void h_wrap(void)
+{
+    static struct cstl_slist l; static struct { long a, b; struct cstl_slist_node n; } E, PE, F, B;
+    int op = nondet_int(); void * r;
+    l.off = 16; l.count = nondet_size_t();
+    l.h.n = l.count ? &F.n : NULL; l.t = l.count ? &B.n : &l.h;
+    vf_wl = &l; vf_wcalls_i = vf_wcalls_e = 0;
+    __CPROVER_assume(op >= 0 && op <= 6);
+    switch (op) {
+    case 0: vf_wp = &l.h; vf_wn = &E.n; cstl_slist_push_front(&l, &E); VF_ASSERT(vf_wcalls_i == 1 && vf_wcalls_e == 0, "push_front: one insert after the head sentinel"); break;
+    case 1: vf_wp = l.t; vf_wn = &E.n; cstl_slist_push_back(&l, &E); VF_ASSERT(vf_wcalls_i == 1 && vf_wcalls_e == 0, "push_back: one insert after the tail (the true last node, or the head sentinel when empty)"); break;
+    case 2: vf_wp = &PE.n; vf_wn = &E.n; cstl_slist_insert_after(&l, &PE, &E); VF_ASSERT(vf_wcalls_i == 1 && vf_wcalls_e == 0, "insert_after: one insert after the node of the given element"); break;
+    case 3: vf_wp = &PE.n; vf_wn = &E.n; r = cstl_slist_erase_after(&l, &PE); VF_ASSERT(vf_wcalls_e == 1 && vf_wcalls_i == 0 && r == (void *)&E, "erase_after: the element after the given one is erased and returned"); break;
+    case 4: vf_wp = &l.h; vf_wn = &F.n; r = cstl_slist_pop_front(&l);
+            VF_ASSERT(l.count ? (vf_wcalls_e == 1 && r == (void *)&F) : (vf_wcalls_e == 0 && r == NULL), "pop_front: the first element is erased and returned; NULL and no erase on an empty list"); break;
+    case 5: r = cstl_slist_front(&l); VF_ASSERT(r == (l.count ? (void *)&F : NULL) && vf_wcalls_e == 0 && vf_wcalls_i == 0, "front: the first element or NULL"); break;
+    case 6: r = cstl_slist_back(&l); VF_ASSERT(r == (l.count ? (void *)&B : NULL) && vf_wcalls_e == 0 && vf_wcalls_i == 0, "back: the true last element or NULL"); break;
+    }
+    VF_REACH(op == 6, "last wrapper reached");
+    VF_END();
+}
+#endif
+
 /* ------------------------------------------------------------------ B: reference-sequence checks */
 static int vf_cmp_key(const void * a, const void * b, void * p)
 {
